@@ -1733,7 +1733,8 @@ class FDE:
                     return list(args[0]) if n == 'list' else tuple(args[0])
                 if n in ('list', 'tuple') and len(args) == 1 and isinstance(args[0], Obj):
                     return Opaque('%s(%s)' % (n, args[0].name))      # the built-in content of a node object, as a plain list / tuple
-                if n in ('list', 'tuple') and isinstance(args[0], (list, tuple)):
+                if n in ('list', 'tuple') and isinstance(args[0], (list, tuple, dict, set, frozenset, str, bytes)) \
+                        and not (isinstance(args[0], tuple) and args[0] and isinstance(args[0][0], str) and args[0][0] in ('class', 'ext', 'kind', 'closure', 'unbound', 'partial')):
                     return list(args[0]) if n == 'list' else tuple(args[0])
                 if n == 'len' and isinstance(args[0], (dict, list, tuple, str, bytes, set, frozenset)):
                     return len(args[0])
